@@ -264,7 +264,7 @@ def prove(prog, s, ctx):
                 for st in preceding_statements(f, s.nid):
                     for x in f.descendants(st):
                         c = f.nodes[x]
-                        if c['k'] == 'CXXMemberCallExpr' and c['callee']['name'] == 'resize' and len(c['args']) == 1 and uncast(R.render(c['obj'])) == C and \
+                        if c['k'] == 'CXXMemberCallExpr' and c['callee']['name'] == 'resize' and len(c['args']) in (1, 2) and uncast(R.render(c['obj'])) == C and \
                                 uncast(R.render(c['args'][0])) == r and not shrinks_between(prog, f, C, c['id'], s.nid):
                             # the resize may sit under `if (N > 0)`: with N == 0 the loop body is never entered
                             gf = facts_at(f, R, c['id'])
@@ -465,7 +465,9 @@ def prove_ptr(prog, s, ctx, R, facts):
                     ni = h.nodes[h.strip(rhs, 'all')] if rhs is not None else None
                     if ni is not None and ni['k'] == 'CXXNewExpr' and ni.get('array') and 'arrsize' in ni:
                         size_p = P.poly(h, ni['arrsize'], Renderer(h))
-            d = P.diff_const(size_p, n_p) if size_p is not None else None
+            if size_p is None:
+                return 'undecided', None, 'cannot resolve the allocation of the buffer passed at %s' % g.loc(cn['id'])
+            d = P.diff_const(size_p, n_p)
             if d is None or d < 0:
                 return 'unproved', None, 'caller %s passes a buffer of %s for %s elements' % (g.loc(cn['id']), P.show(size_p) if size_p else '?', P.show(n_p))
         return 'ok', 'G4', 'every caller passes a buffer of at least %s + %d elements' % (bound[0], bound[1])
@@ -612,12 +614,18 @@ def rule(prog, res, scope=None, rule_name='index-site'):
             res.ok(rule_name, inst, f.loc(s.nid), '%s: %s' % (idiom, detail), function=f.sig, expr=key + '@%d' % s.nid)
             per[idiom] = per.get(idiom, 0) + 1
             continue
+        if verdict == 'undecided':
+            res.undecided(rule_name, inst, f.loc(s.nid), detail, function=f.sig, expr=key)
+            continue
         j = [e for e in inv if e['function'] == f.qname and e['site'] == key]
         if j and invariant_holds(prog, j[0]):
             res.ok(rule_name, inst, f.loc(s.nid), 'justified (spec/invariants.json): ' + j[0]['reason'], function=f.sig, expr=key + '@%d' % s.nid, nontrivial=False)
             per['justified'] = per.get('justified', 0) + 1
             continue
-        res.viol(rule_name, inst, f.loc(s.nid), detail + (' (an invariants.json entry exists but its mechanical condition no longer holds)' if j else ''), function=f.sig, expr=key)
+        if j:
+            res.undecided(rule_name, inst, f.loc(s.nid), detail + ' (spec/invariants.json justifies this site, but the mechanical part of the justification no longer holds on this tree)', function=f.sig, expr=key)
+        else:
+            res.viol(rule_name, inst, f.loc(s.nid), detail, function=f.sig, expr=key)
     res.info.setdefault('index_site_idioms', {}).update(per)
     return n
 
